@@ -98,6 +98,7 @@ type oldCert struct {
 	valid   string // current | expired | future
 	eku     string // client | server
 	keyIdx  int    // ed25519 key index, 0 = ECDSA key
+	named   int    // key index whose hash the v2 subject names (differs from keyIdx for v2-other-hash)
 	pub     crypto.PublicKey
 }
 
@@ -163,7 +164,7 @@ func c32(c *report.Check, thorough bool, only string) {
 			rep.viol("c32:"+where+":not-from-client-ca", "issued certificate does not verify against the client CA: "+err.Error(), cs)
 		}
 		if got, ok := crt.PublicKey.(ed25519.PublicKey); !ok || !bytes.Equal(got, wantKey) {
-			rep.viol("c32:"+where+":wrong-key", "issued certificate carries a key other than the proof-of-work key", cs)
+			rep.viol("c32:"+where+":wrong-key", "issued certificate carries a key other than the expected one (request: the proof-of-work key; renewal: the key of the old certificate)", cs)
 		}
 		if !bytes.Equal(pemStr, spki.MarshalCertificate(der)) {
 			rep.viol("c32:"+where+":pem-der-mismatch", "PEM and DER differ", cs)
@@ -255,7 +256,17 @@ func c32(c *report.Check, thorough bool, only string) {
 			edpub, _ = seedKey(keyIdx)
 			pub = edpub
 		}
-		opub, _ := seedKey(keyIdx + 100)
+		// "v2-other-hash": a client-CA-issued v2 subject naming the hash of ANOTHER key, and one
+		// for which the enumeration holds valid proofs (the next key of the proof-key set), so
+		// that both (proof by the certificate's key) and (proof by the key the subject names) are
+		// driven with proofs valid for the respective key.
+		otherIdx := keys[0]
+		for i, k := range keys {
+			if k == keyIdx {
+				otherIdx = keys[(i+1)%len(keys)]
+			}
+		}
+		opub, _ := seedKey(otherIdx)
 		h := sha256.Sum256(edpub)
 		oh := sha256.Sum256(opub)
 		var subj pkix.Name
@@ -323,7 +334,7 @@ func c32(c *report.Check, thorough bool, only string) {
 		if err != nil {
 			panic(err)
 		}
-		return oldCert{label: fmt.Sprintf("%s/%s/%s/%s/key%d", issuer, version, valid, eku, keyIdx), der: der, issuer: issuer, version: version, valid: valid, eku: eku, keyIdx: keyIdx, pub: pub}
+		return oldCert{label: fmt.Sprintf("%s/%s/%s/%s/key%d", issuer, version, valid, eku, keyIdx), der: der, issuer: issuer, version: version, valid: valid, eku: eku, keyIdx: keyIdx, named: map[bool]int{true: otherIdx, false: keyIdx}[version == "v2-other-hash"], pub: pub}
 	}
 	var olds []oldCert
 	certKeys := []int{keys[0], keys[1]}
@@ -383,7 +394,10 @@ func c32(c *report.Check, thorough bool, only string) {
 				})
 				cs := map[string]any{"op": "renew", "old_certificate": o.label, "proof_key": pkIdx, "proof": kind, "renewed": err == nil, "error": errClass(err)}
 				sameKey := o.keyIdx != 0 && o.keyIdx == pkIdx
-				dist.See(fmt.Sprintf("renew:%s:%s:%s:%s:ed=%v:samekey=%v:%s:%v", o.issuer, o.version, o.valid, o.eku, o.keyIdx != 0, sameKey, kind, err == nil), cs)
+				namedKey := o.version == "v2-other-hash" && pkIdx == o.named // proof by the key the subject names, not the certificate's
+				cs["proof_by_certificate_key"] = sameKey
+				cs["proof_by_key_named_in_subject_only"] = namedKey
+				dist.See(fmt.Sprintf("renew:%s:%s:%s:%s:ed=%v:samekey=%v:namedkey=%v:%s:%v", o.issuer, o.version, o.valid, o.eku, o.keyIdx != 0, sameKey, namedKey, kind, err == nil), cs)
 				if err != nil {
 					continue
 				}
@@ -455,7 +469,7 @@ func c32(c *report.Check, thorough bool, only string) {
 	c.Set("handler_panics", int(handlerPanics.Load()))
 	c.Set("old_certificates", len(olds)+len(raws))
 	c.Set("distinct_nontrivial", dist.N())
-	c.Set("rule", fmt.Sprintf("request: %d keys x proof %v x %d repeats; renew: old certificate = issuer {client CA, foreign CA with the same DN, foreign CA, self-signed} x subject {v2, v2 with another key's hash, v2+organization, v1, v3, two-part, no CN, non-numeric id (foreign issuers only)} x validity {current, expired, not yet valid} x EKU {client, server} x 2 (thorough 3) ed25519 keys, plus ECDSA-keyed, server-issued and 4 malformed encodings, each x proof key {3 keys, thorough 6} x proof %v; successful renewals are renewed once more; "+
+	c.Set("rule", fmt.Sprintf("request: %d keys x proof %v x %d repeats; renew: old certificate = issuer {client CA, foreign CA with the same DN, foreign CA, self-signed} x subject {v2, v2 naming the hash of another key of the proof-key set, v2+organization, v1, v3, two-part, no CN, non-numeric id (foreign issuers only)} x validity {current, expired, not yet valid} x EKU {client, server} x 2 (thorough 3) ed25519 keys, plus ECDSA-keyed, server-issued and 4 malformed encodings, each x proof key {3 keys, thorough 6} x proof %v; successful renewals are renewed once more; "+
 		"class = (issuer, subject form, validity, EKU, key type, same key, proof, outcome)", len(keys), pkiProofKinds, repeats, pkiProofKinds))
 	c.Set("samples", dist.Samples())
 	c.Set("exhaustive", true)
